@@ -14,6 +14,7 @@ import (
 	"crypto/sha256"
 	"fmt"
 	"math/big"
+	"os"
 	"sync"
 	"testing"
 
@@ -63,6 +64,11 @@ func TestCheck(t *testing.T) {
 		"key sizes 256/512 (quick) and 1024/2048 (thorough) bits built from fixed primes via znstar.NewPaillierGroup; the library's key-size floor is relaxed because the check is a test binary (testing.Testing())",
 		"purego build of the library",
 	)
+	if f := os.Getenv("VERIF_C16_ONLY"); f != "" {
+		// development / mutant-demonstration knob: only BFS sections whose name contains f are run. Such a run is never
+		// a verdict: it ends with exit 2 (harness error) unless it found a violation.
+		engine.HarnessFail("VERIF_C16_ONLY=%s: partial run, BFS sections not matching were skipped", f)
+	}
 	// CT sections run first (inside the two functions); all BFS sections then run side by side
 	pb := runPaillier()
 	eb := runElGamal()
